@@ -110,6 +110,16 @@ def is_os(a):
     return a is not None and a[1] == "os"
 
 
+def mk_nos(terms):
+    """NOT(OR terms) = AND of the negated terms: the dual accumulate idiom (acc &= match; ... acc == !0)"""
+    r = mk_os(terms)
+    if r is None:
+        return None
+    if r[1] == "os":
+        return (r[0], "nos", r[2])
+    return bnot(r)
+
+
 # Window mode: while a harness.Space (a fixed universe of <= 16 atoms) is active, a bit whose support exceeds K is
 # kept as the integer bit set of its satisfying assignments over that universe: (universe ids, "sp", mask).  Exact.
 ACTIVE = [None]
@@ -236,11 +246,11 @@ def bnot(a):
         return None
     if a[1] == "xs":
         return (a[0], "xs", a[2], 1 - a[3])
-    if a[1] == "os":
+    if a[1] in ("os", "nos"):
         if ACTIVE[0] is not None:
             m = _to_mask(a)
             return None if m is None else _sp(m ^ ACTIVE[0].full)
-        return None
+        return (a[0], "nos" if a[1] == "os" else "os", a[2])
     if a[1] == "sp":
         return _sp(a[2] ^ ACTIVE[0].full) if ACTIVE[0] is not None and ACTIVE[0].key == a[0] else None
     return (a[0], a[1] ^ _full(len(a[0])))
@@ -248,7 +258,7 @@ def bnot(a):
 
 def _merge(a, b):
     """union support, expanded tts; None if too large"""
-    if a[1] in ("xs", "os", "sp") or b[1] in ("xs", "os", "sp"):
+    if a[1] in ("xs", "os", "nos", "sp") or b[1] in ("xs", "os", "nos", "sp"):
         return None
     aa, ab = a[0], b[0]
     if aa == ab:
@@ -281,10 +291,15 @@ def band(a, b):
     if m is None:
         if ACTIVE[0] is not None:
             return _sp_op(a, b, "and")
-        if a[1] == "os" and b[1] != "os":
+        if a[1] == "os" and b[1] not in ("os", "nos"):
             return mk_os([band(t, b) for t in a[2]])
-        if b[1] == "os" and a[1] != "os":
+        if b[1] == "os" and a[1] not in ("os", "nos"):
             return mk_os([band(a, t) for t in b[2]])
+        if a[1] != "os" and b[1] != "os":
+            # conjunction kept as "no negated conjunct is 1"
+            ta = a[2] if a[1] == "nos" else (bnot(a),)
+            tb = b[2] if b[1] == "nos" else (bnot(b),)
+            return mk_nos(list(ta) + list(tb))
         return None
     return _canon(m[0], m[1] & m[2])
 
@@ -308,6 +323,8 @@ def bor(a, b):
     if m is None:
         if ACTIVE[0] is not None:
             return _sp_op(a, b, "or")
+        if a[1] == "nos" or b[1] == "nos":
+            return None
         return mk_os([a, b])
     return _canon(m[0], m[1] | m[2])
 
@@ -325,11 +342,15 @@ def bxor(a, b):
         return a
     if a == b:
         return ZERO
+    if a == ONE:
+        return bnot(b)
+    if b == ONE:
+        return bnot(a)
     m = _merge(a, b)
     if m is None:
         if ACTIVE[0] is not None:
             return _sp_op(a, b, "xor")
-        if a[1] in ("os", "sp") or b[1] in ("os", "sp"):
+        if a[1] in ("os", "nos", "sp") or b[1] in ("os", "nos", "sp"):
             return None
         # keep the sum symbolic: xor-sum of small functions (exact)
         ta, ca = xs_parts(a)
@@ -366,9 +387,9 @@ def describe(b):
         return "TOP"
     if b[1] == "sp":
         return "SET{%d assignments of the window}" % bin(b[2]).count("1")
-    if b[1] == "os":
+    if b[1] in ("os", "nos"):
         ts = sorted(describe(t) for t in b[2])
-        return "OR{" + ", ".join(ts[:6]) + (", ..%d terms" % len(ts) if len(ts) > 6 else "") + "}"
+        return ("!" if b[1] == "nos" else "") + "OR{" + ", ".join(ts[:6]) + (", ..%d terms" % len(ts) if len(ts) > 6 else "") + "}"
     if b[1] == "xs":
         ms = sorted("&".join(ATOMS.name(x) for x in m) for m in b[2])
         return ("!" if b[3] else "") + "XOR{" + ", ".join(ms[:6]) + (", ..%d terms" % len(ms) if len(ms) > 6 else "") + "}"
@@ -399,6 +420,8 @@ def eval_bit(b, assignment):
         return (b[2] >> r) & 1
     if b[1] == "os":
         return 1 if any(eval_bit(t, assignment) for t in b[2]) else 0
+    if b[1] == "nos":
+        return 0 if any(eval_bit(t, assignment) for t in b[2]) else 1
     if b[1] == "xs":
         v = b[3]
         for m in b[2]:
@@ -432,6 +455,8 @@ def restrict(b, asg):
         return _sp(m)
     if b[1] == "os":
         return mk_os([restrict(t, asg) for t in b[2]])
+    if b[1] == "nos":
+        return mk_nos([restrict(t, asg) for t in b[2]])
     if b[1] == "xs":
         mons = {}
         const = b[3]
@@ -471,6 +496,11 @@ def sat_assignment(b):
             return None
         r = (b[2] & -b[2]).bit_length() - 1
         return {a: (r >> j) & 1 for j, a in enumerate(b[0])}
+    if b[1] == "nos":
+        for c in ({}, {x: 1 for x in b[0]}):
+            if eval_bit(b, c):
+                return {x: c.get(x, 0) for x in b[0]}
+        return None
     if b[1] == "os":
         for t in b[2]:
             r = sat_assignment(t)
